@@ -10,6 +10,7 @@ extern UINT64 of_seed;
 
 int main(void)
 {
+	setvbuf(stdout, NULL, _IOLBF, 0);
 	static char line[1 << 20];
 	while (fgets(line, sizeof line, stdin)) {
 		char *tok = strtok(line, " \n");
